@@ -49,9 +49,9 @@ def site_ok(T, options, E):
 
 
 def good_L(T):
-    """the sequence length is a finite positive number: established by check_integrity before the
-    row-wise checkers run (C02: 'Sequence length must be > 0')"""
-    return z3.And(d_isfinite(T.L), d_gt(T.L, ZERO))
+    """the sequence length compares greater than zero (so it is not NaN): established by check_integrity
+    before the row-wise checkers run (TSK_ERR_BAD_SEQUENCE_LENGTH: 'Sequence length must be > 0')"""
+    return d_gt(T.L, ZERO)
 
 
 @contract("tables.c", "tsk_table_collection_check_site_integrity", ["self", "options"])
@@ -336,4 +336,186 @@ def check_individual_integrity(c):
     c.ensures(lambda: (c.result == 0) == forall_rows(n, ok), "iff")
     c.ensures(lambda: one_of(c.result, 0, E.TSK_ERR_INDIVIDUAL_OUT_OF_BOUNDS, E.TSK_ERR_INDIVIDUAL_SELF_PARENT,
                              E.TSK_ERR_UNSORTED_INDIVIDUALS), "codes")
+    c.assigns()
+
+
+# ------------------------------------------------------------------------------------------
+# indexes
+
+class Idx:
+    def __init__(self, h, self_):
+        self.h = h
+        self.p = h.sub(self_, "indexes")
+        self.Ip = h.get(self.p, "edge_insertion_order")
+        self.Op = h.get(self.p, "edge_removal_order")
+        self.n = h.get(self.p, "num_edges")
+
+    @property
+    def I(self):
+        return self.h.arr(self.Ip)
+
+    @property
+    def O(self):
+        return self.h.arr(self.Op)
+
+    def rep(self):
+        h = self.h
+        return z3.And(self.n >= 0,
+                      z3.Implies(z3.Not(h.isnull(self.Ip)), z3.And(self.Ip.off == 0, h.len(self.Ip) >= self.n)),
+                      z3.Implies(z3.Not(h.isnull(self.Op)), z3.And(self.Op.off == 0, h.len(self.Op) >= self.n)))
+
+    def present(self, T):
+        h = self.h
+        return z3.And(z3.Not(h.isnull(self.Ip)), z3.Not(h.isnull(self.Op)), self.n == T.edges.n)
+
+    def in_range(self, T):
+        n = T.edges.n
+        I_, O_ = self.I, self.O
+        return z3.ForAll([j], z3.Implies(z3.And(0 <= j, j < n),
+                                         z3.And(in_ids(I_[j], n), in_ids(O_[j], n))))
+
+
+@contract("tables.c", "tsk_table_collection_has_index", ["self", "TSK_UNUSED_options"])
+def has_index(c):
+    self_ = c.arg("self")
+    h = c.old
+    c.requires(z3.Not(h.isnull(self_)))
+    T = TC(h, self_)
+    X = Idx(h, self_)
+    c.ensures(lambda: (c.result != 0) == X.present(T), "iff")
+    c.assigns()
+
+
+@contract("tables.c", "tsk_table_collection_check_index_integrity", ["self"])
+def check_index_integrity(c):
+    self_ = c.arg("self")
+    E = c.E
+    h = c.old
+    c.requires(z3.Not(h.isnull(self_)))
+    T = TC(h, self_)
+    X = Idx(h, self_)
+    c.requires(T.edges.rep())
+    c.requires(X.rep())
+    n = T.edges.n
+    I_, O_ = X.I, X.O
+    c.loop(0).invariant(lambda s: z3.And(0 <= s.j, s.j <= n, s.ret == 0, X.present(T),
+                                         z3.ForAll([i], z3.Implies(z3.And(0 <= i, i < s.j),
+                                                                   z3.And(in_ids(I_[i], n), in_ids(O_[i], n))))))
+    c.ensures(lambda: (c.result == 0) == z3.And(X.present(T), X.in_range(T)), "iff")
+    c.ensures(lambda: one_of(c.result, 0, E.TSK_ERR_TABLES_NOT_INDEXED, E.TSK_ERR_EDGE_OUT_OF_BOUNDS), "codes")
+    c.assigns()
+
+
+OFFSET_COLS = [("nodes", "metadata"), ("sites", "ancestral_state"), ("sites", "metadata"),
+               ("mutations", "derived_state"), ("mutations", "metadata"), ("individuals", "metadata"),
+               ("provenances", "timestamp"), ("provenances", "record")]
+
+
+@contract("tables.c", "tsk_table_collection_check_offsets", ["self"])
+def collection_check_offsets(c):
+    self_ = c.arg("self")
+    h = c.old
+    c.requires(z3.Not(h.isnull(self_)))
+    T = TC(h, self_)
+    c.requires(T.rep(["nodes", "sites", "mutations", "individuals", "provenances"]))
+    # under Rep every offset column is well formed, so the only outcome is success
+    c.ensures(lambda: c.result == 0, "rep_implies_ok")
+    c.assigns()
+
+
+def tree_pre(T, X):
+    """what check_integrity(TSK_CHECK_TREES) has established when it calls check_tree_integrity"""
+    E_ = T.edges
+    M = T.mutations
+    nn, ne, ns, nm = T.nodes.n, E_.n, T.sites.n, M.n
+    parent, child = E_.col("parent"), E_.col("child")
+    mnode, msite = M.col("node"), M.col("site")
+    return z3.And(
+        X.rep(), X.present(T), X.in_range(T), d_gt(T.L, ZERO),
+        z3.ForAll([j], z3.Implies(z3.And(0 <= j, j < ne), z3.And(in_ids(parent[j], nn), in_ids(child[j], nn)))),
+        z3.ForAll([j], z3.Implies(z3.And(0 <= j, j < nm), z3.And(in_ids(mnode[j], nn), in_ids(msite[j], ns)))))
+
+
+def injective(a, n):
+    return z3.ForAll([i, k], z3.Implies(z3.And(0 <= i, i < k, k < n), a[i] != a[k]))
+
+
+@contract("tables.c", "tsk_table_collection_check_tree_integrity", ["self"])
+def check_tree_integrity(c):
+    self_ = c.arg("self")
+    E = c.E
+    h = c.old
+    c.requires(z3.Not(h.isnull(self_)))
+    T = TC(h, self_)
+    X = Idx(h, self_)
+    c.requires(T.rep(["nodes", "edges", "sites", "mutations"]))
+    c.requires(tree_pre(T, X))
+    nn, ne, ns, nm = T.nodes.n, T.edges.n, T.sites.n, T.mutations.n
+    I_, O_ = X.I, X.O
+
+    def base(s):
+        par, used = s.parent, s.used_edges
+        pa = s.arr(par)
+        ua = s.arr(used)
+        return z3.And(
+            s.ret == 0,
+            z3.Not(s.isnull(par)), par.off == 0, s.len(par) == nn,
+            z3.Not(s.isnull(used)), used.off == 0, s.len(used) == ne,
+            0 <= s.j, s.j <= ne, 0 <= s.k, s.k <= ne,
+            0 <= s.site, s.site <= ns, 0 <= s.mutation, s.mutation <= nm,
+            0 <= s.num_trees, s.num_trees <= (1 << 31) - 2,
+            z3.ForAll([i], z3.Implies(z3.And(0 <= i, i < nn), in_ids_or_null(pa[i], nn))),
+            z3.ForAll([i], z3.Implies(z3.And(0 <= i, i < ne), z3.And(0 <= ua[i], ua[i] <= 2))),
+            z3.ForAll([i], z3.Implies(z3.And(0 <= i, i < s.j), ua[I_[i]] >= 1)),
+            z3.ForAll([i], z3.Implies(z3.And(0 <= i, i < s.k), ua[O_[i]] == 2)),
+            injective(I_, s.j), injective(O_, s.k))
+    for q in range(6):
+        c.loop(q).invariant(base)
+    c.ensures(lambda: z3.Implies(c.result >= 0, z3.And(injective(I_, ne), injective(O_, ne))),
+              "accepted_index_is_permutation")
+    c.ensures(lambda: z3.Or(c.result >= 0, one_of(c.result, E.TSK_ERR_NO_MEMORY, E.TSK_ERR_TABLES_BAD_INDEXES,
+                                                  E.TSK_ERR_BAD_EDGES_CONTRADICTORY_CHILDREN,
+                                                  E.TSK_ERR_MUTATION_TIME_OLDER_THAN_PARENT_NODE,
+                                                  E.TSK_ERR_TREE_OVERFLOW)), "codes")
+    c.assigns()
+
+
+@contract("tables.c", "tsk_table_collection_check_integrity", ["self", "options"])
+def check_integrity(c):
+    self_, options = c.arg("self"), c.arg("options")
+    E = c.E
+    h = c.old
+    c.requires(z3.Not(h.isnull(self_)))
+    T = TC(h, self_)
+    X = Idx(h, self_)
+    c.requires(T.rep())
+    c.requires(X.rep())
+    trees = flag(options, E.TSK_CHECK_TREES)
+    implied = (E.TSK_CHECK_EDGE_ORDERING | E.TSK_CHECK_SITE_ORDERING | E.TSK_CHECK_SITE_DUPLICATES
+               | E.TSK_CHECK_MUTATION_ORDERING | E.TSK_CHECK_MIGRATION_ORDERING | E.TSK_CHECK_INDEXES)
+    eff = z3.If(trees, options | z3.BitVecVal(implied, 32), options)
+
+    clauses = [
+        ("sequence_length", lambda: d_gt(T.L, ZERO)),
+        ("nodes", lambda: forall_rows(T.nodes.n, node_ok(T, eff, E))),
+        ("edges", lambda: forall_rows(T.edges.n, edge_basic_ok(T))),
+        ("edge_order", lambda: z3.Implies(flag(eff, E.TSK_CHECK_EDGE_ORDERING),
+                                          forall_rows(T.edges.n, edge_adjacent_order(T)))),
+        ("sites", lambda: forall_rows(T.sites.n, site_ok(T, eff, E))),
+        ("mutations", lambda: forall_rows(T.mutations.n, mutation_ok(T, eff, E))),
+        ("migrations", lambda: forall_rows(T.migrations.n, migration_ok(T, eff, E))),
+        ("individuals", lambda: forall_rows(T.individuals.n, individual_ok(T, eff, E)[0])),
+        ("indexes", lambda: z3.Implies(flag(eff, E.TSK_CHECK_INDEXES), z3.And(X.present(T), X.in_range(T)))),
+        ("index_permutation", lambda: z3.Implies(trees, z3.And(injective(X.I, T.edges.n),
+                                                              injective(X.O, T.edges.n)))),
+    ]
+    masks = [E.TSK_CHECK_EDGE_ORDERING, E.TSK_CHECK_SITE_ORDERING, E.TSK_CHECK_SITE_DUPLICATES,
+             E.TSK_CHECK_MUTATION_ORDERING, E.TSK_CHECK_INDIVIDUAL_ORDERING, E.TSK_CHECK_MIGRATION_ORDERING,
+             E.TSK_CHECK_INDEXES, E.TSK_CHECK_TREES, E.TSK_NO_CHECK_POPULATION_REFS]
+    # the options word the checkers were actually called with is the documented effective one
+    c.ensures(lambda: z3.And(*[flag(eff, m) == flag(c.new.local("options"), m) for m in masks]),
+              "effective_options")
+    for (nm, fn) in clauses:
+        c.ensures((lambda fn=fn: z3.Implies(c.result >= 0, fn())), "accepted_valid_" + nm)
+    c.ensures(lambda: z3.Implies(z3.Not(trees), z3.Or(c.result == 0, c.result < 0)), "ret_zero_without_trees")
     c.assigns()
